@@ -235,8 +235,14 @@ def _memo_parse(path, missing_data_token=None):
 # run classes
 # --------------------------------------------------------------------------
 def config_for(i, tier='quick'):
-    c = {'mode': 'journal', 'memo': (i % 10) != 9, 'clock_jumps': (i % 3) == 1}
-    c['crashpoints'] = 'all' if tier == 'thorough' else 'sample'
+    memo = (i % 10) != 9
+    jumps = (i % 3) == 1
+    if i % 2 == 0:
+        c = {'mode': 'journal', 'memo': memo, 'clock_jumps': jumps}
+        c['crashpoints'] = 'all' if tier == 'thorough' else 'sample'
+    else:
+        fault = ('none', 'oserror', 'death', 'mix')[(i // 2) % 4]
+        c = {'mode': 'insitu', 'memo': memo, 'clock_jumps': jumps, 'fault': fault}
     return c
 
 
@@ -246,6 +252,8 @@ def scenarios(tier):
 
 
 def class_name(cfg):
+    if cfg['mode'] == 'insitu':
+        return f"mode=insitu,fault={cfg.get('fault')},memo={int(cfg.get('memo', True))}"
     return f"mode={cfg['mode']},crashpoints={cfg.get('crashpoints')},memo={int(cfg.get('memo', True))}"
 
 
@@ -304,7 +312,8 @@ class Ref:
         self.keys_acked = {}        # key -> {'results': bool}
         self.names = {}             # name -> key          (acked bindings)
         self.annot = {}             # name -> text         (acked)
-        self.log = []               # (severity, path, message) acked, in order
+        self.log = []               # (severity, path, message) acked, in order of acknowledgement
+        self.log_times = []         # (invoke seq, return seq) per acked message (in-situ mode)
         self.db_only = set()        # keys stored through the database only
 
     def copy(self):
@@ -313,6 +322,7 @@ class Ref:
         r.names = dict(self.names)
         r.annot = dict(self.annot)
         r.log = list(self.log)
+        r.log_times = list(self.log_times)
         r.db_only = set(self.db_only)
         return r
 
@@ -340,6 +350,7 @@ def apply_ack(ref, op):
     elif k == 'log':
         ctxpath = 'ctx' if op['model'] is None else f"ctx/@{POOL[op['model']]['name']}"
         ref.log.append((op['sev'], ctxpath, op['msg']))
+        ref.log_times.append(op.get('_times'))
     elif k == 'annotate':
         ref.annot[POOL[op['model']]['name']] = op['text']
 
@@ -422,40 +433,77 @@ def content_problem(me, key, expect_results, maybe_results):
     return None
 
 
+class Infl:
+    """Summary of the operations that were in flight (killed or failed) when the
+    state under inspection was produced: for these the oracle accepts "absent" or
+    "complete", never demands either."""
+
+    def __init__(self, ops):
+        self.ops = [o for o in (ops or []) if o is not None]
+        self.keys = {}             # key -> kind of the interrupted transaction
+        self.result_keys = set()
+        self.annot_alts = {}       # name -> set of texts
+        self.logs = []             # (sev, path, msg)
+        self.datasets = set()
+        self.names = {}            # name -> key  (bindings that may or may not exist)
+        for o in self.ops:
+            k = o['kind']
+            if k == 'log':
+                ctxpath = 'ctx' if o['model'] is None else f"ctx/@{POOL[o['model']]['name']}"
+                self.logs.append((o['sev'], ctxpath, o['msg']))
+            elif k == 'annotate':
+                self.annot_alts.setdefault(POOL[o['model']]['name'], set()).add(o['text'])
+            elif k in ('retrieve', 'retrieve_log'):
+                pass
+            else:
+                e = POOL[o['model']]
+                self.keys[e['key']] = k
+                self.datasets.add(e['dataset'])
+                if k in ('store', 'store_input', 'store_final'):
+                    if e['has_results']:
+                        self.result_keys.add(e['key'])
+                    nm = store_name(o)
+                    self.annot_alts.setdefault(nm, set()).add(e['desc'])
+                    self.names[nm] = e['key']
+
+    @property
+    def annotation_writers(self):
+        return any(o['kind'] in ('annotate', 'store', 'store_input', 'store_final') for o in self.ops)
+
+
 def check_state(root, ref, inflight, V, where, wl_models, do_progress=True):
-    """Reopen the directory with fresh objects and check R1-R4."""
+    """Reopen the directory with fresh objects and check R1-R4.  `inflight` is one
+    operation, a list of operations, or None."""
     Ctx = _P['Ctx']
     ModelHash = _P['ModelHash']
+    infl = Infl(inflight if isinstance(inflight, list) else [inflight])
     try:
         ctx = quiet(Ctx('ctx', ref=root))
     except Exception as ex:
         V.viol(f'reopen-failed/{type(ex).__name__}', f'{where}: reopening the context raised {ex!r}')
         return
     db = ctx.model_database
-    infl_key = None
-    infl_results = False
-    infl_kind = None
-    if inflight is not None:
-        infl_kind = inflight['kind']
-        if inflight.get('model') is not None and infl_kind not in ('log', 'annotate'):
-            infl_key = POOL[inflight['model']]['key']
-            infl_results = POOL[inflight['model']]['has_results'] and infl_kind.startswith('store')
+    pending_sig = ('committed-unretrievable/PendingTransactionError/'
+                   'later-transaction-in-flight-on-same-key')
     # ---- R1/R2 by key
     for idx in wl_models:
         e = POOL[idx]
         key = e['key']
         acked = key in ref.keys_acked
         exp_res = acked and ref.keys_acked[key]['results']
-        maybe_res = exp_res or (infl_key == key and infl_results)
+        maybe_res = exp_res or key in infl.result_keys
+        if not acked and key in infl.result_keys:
+            # never committed before: if the interrupted store is visible at all it must be
+            # visible completely, results included
+            exp_res = True
         try:
             me = db.retrieve_model_entry(ModelHash(key))
         except Exception as ex:
             if acked:
-                if isinstance(ex, _P['Pending']) and infl_key == key:
-                    V.viol('committed-unretrievable/PendingTransactionError/'
-                           'later-transaction-in-flight-on-same-key',
+                if isinstance(ex, _P['Pending']) and key in infl.keys:
+                    V.viol(pending_sig,
                            f'{where}: {e["name"]} was committed earlier; an interrupted '
-                           f'{infl_kind} on the same key left PENDING and the entry is refused')
+                           f'{infl.keys[key]} on the same key left PENDING and the entry is refused')
                 else:
                     V.viol(f'committed-unretrievable/{type(ex).__name__}',
                            f'{where}: committed entry {e["name"]} ({key[:8]}) raises {ex!r}')
@@ -477,20 +525,17 @@ def check_state(root, ref, inflight, V, where, wl_models, do_progress=True):
         V.viol(f'list-names-failed/{type(ex).__name__}', f'{where}: {ex!r}')
         names = []
     for name, key in ref.names.items():
-        e = next(x for x in POOL if x['key'] == key)
         if name not in names:
             V.viol('committed-name-lost', f'{where}: acknowledged name {name!r} is not listed')
             continue
         try:
             me = ctx.retrieve_model_entry(name)
         except Exception as ex:
-            if isinstance(ex, _P['Pending']) and infl_key == key:
-                V.viol('committed-unretrievable/PendingTransactionError/'
-                       'later-transaction-in-flight-on-same-key',
-                       f'{where}: name {name!r} committed earlier; interrupted {infl_kind} on the '
+            if isinstance(ex, _P['Pending']) and key in infl.keys:
+                V.viol(pending_sig,
+                       f'{where}: name {name!r} committed earlier; interrupted {infl.keys[key]} on the '
                        f'same key left PENDING')
-            elif isinstance(ex, KeyError) and 'annotation' in str(ex).lower() and \
-                    infl_kind in ('annotate', 'store', 'store_input', 'store_final'):
+            elif isinstance(ex, KeyError) and 'annotation' in str(ex).lower() and infl.annotation_writers:
                 V.viol('committed-unretrievable/KeyError/annotations-lost',
                        f'{where}: name {name!r} committed earlier; an interrupted annotation '
                        f'write lost its annotation: {ex!r}')
@@ -499,16 +544,11 @@ def check_state(root, ref, inflight, V, where, wl_models, do_progress=True):
                        f'{where}: committed name {name!r} raises {ex!r}')
             continue
         exp_res = ref.keys_acked[key]['results']
-        prob = content_problem(me, key, exp_res, exp_res or (infl_key == key and infl_results))
+        prob = content_problem(me, key, exp_res, exp_res or key in infl.result_keys)
         if prob is None and me.model.name != name:
             prob = f'name is {me.model.name!r}'
         want = ref.annot.get(name)
-        alts = {want}
-        if inflight is not None and infl_kind == 'annotate' and POOL[inflight['model']]['name'] == name:
-            alts.add(inflight['text'])
-        if inflight is not None and infl_kind in ('store', 'store_input', 'store_final') and \
-                store_name(inflight) == name:
-            alts.add(POOL[inflight['model']]['desc'])
+        alts = {want} | infl.annot_alts.get(name, set())
         if prob is None and me.model.description not in alts:
             prob = f'description is {me.model.description!r}, stored {want!r}'
         if prob is not None:
@@ -520,12 +560,15 @@ def check_state(root, ref, inflight, V, where, wl_models, do_progress=True):
             if str(k2) != key:
                 V.viol('name-bound-to-wrong-key', f'{where}: {name!r} -> {str(k2)[:8]}, stored {key[:8]}')
             n2 = ctx.retrieve_name(ModelHash(key))
-            if ref.names.get(n2) != key and not (
-                    inflight is not None and infl_key == key):
+            if ref.names.get(n2) != key and infl.names.get(n2) != key:
                 V.viol('name-bound-to-wrong-key', f'{where}: retrieve_name({key[:8]}) = {n2!r}')
         except Exception as ex:
-            V.viol(f'committed-unretrievable/{type(ex).__name__}',
-                   f'{where}: retrieve_key/retrieve_name for {name!r}: {ex!r}')
+            if isinstance(ex, _P['Pending']) and key in infl.keys:
+                V.viol(pending_sig, f'{where}: retrieve_key({name!r}) refused: PENDING left by an '
+                                    f'interrupted {infl.keys[key]}')
+            else:
+                V.viol(f'committed-unretrievable/{type(ex).__name__}',
+                       f'{where}: retrieve_key/retrieve_name for {name!r}: {ex!r}')
     # names that are listed but were never acknowledged must resolve to complete content or raise
     for name in names:
         if name in ref.names:
@@ -540,25 +583,21 @@ def check_state(root, ref, inflight, V, where, wl_models, do_progress=True):
             key = str(ctx.retrieve_key(name))
         except Exception:
             pass
-        if key not in GOLD:
-            V.viol('partial-or-wrong-entry-visible', f'{where}: unknown name {name!r} resolves to {key}')
+        if key not in GOLD or infl.names.get(name) != key:
+            V.viol('partial-or-wrong-entry-visible',
+                   f'{where}: name {name!r} that nobody stored resolves to {key}')
             continue
         prob = content_problem(me, key, False, True)
         if prob is not None:
             V.viol('partial-or-wrong-entry-visible',
                    f'{where}: unacknowledged name {name!r} is retrievable but {prob}')
-    # ---- annotations without a bound name (store_annotation only)
+    # ---- annotations (also ones written with store_annotation only)
     for name, text in ref.annot.items():
-        alts = {text}
-        if inflight is not None and infl_kind == 'annotate' and POOL[inflight['model']]['name'] == name:
-            alts.add(inflight['text'])
-        if inflight is not None and infl_kind in ('store', 'store_input', 'store_final') and \
-                store_name(inflight) == name:
-            alts.add(POOL[inflight['model']]['desc'])
+        alts = {text} | infl.annot_alts.get(name, set())
         try:
             got = ctx.retrieve_annotation(name)
         except Exception as ex:
-            if infl_kind in ('annotate', 'store', 'store_input', 'store_final'):
+            if infl.annotation_writers:
                 V.viol('committed-unretrievable/KeyError/annotations-lost',
                        f'{where}: acknowledged annotation of {name!r} lost by an interrupted '
                        f'annotation write: {ex!r}')
@@ -568,22 +607,21 @@ def check_state(root, ref, inflight, V, where, wl_models, do_progress=True):
         if got not in alts:
             V.viol('annotation-not-verbatim', f'{where}: {name!r}: got {got!r}, stored {text!r}')
     # ---- R3 log
-    check_log(ctx, ref, inflight, V, where)
+    check_log(ctx, ref, infl, V, where)
     # ---- R4 progress: stores of keys that were not in flight succeed
     if do_progress:
         ref2 = ref.copy()
         for idx in wl_models:
             e = POOL[idx]
-            if e['key'] == infl_key:
+            if e['key'] in infl.keys:
                 continue
             op = {'kind': 'store', 'model': idx}
-            if name_conflict(ref2, op):
+            if name_conflict(ref2, op) or infl.names.get(e['name'], e['key']) != e['key']:
                 continue
             try:
                 ctx.store_model_entry(e['me'])
             except Exception as ex:
-                shares = inflight is not None and inflight.get('model') is not None and \
-                    POOL[inflight['model']]['dataset'] == e['dataset'] and infl_key is not None
+                shares = e['dataset'] in infl.datasets
                 V.viol(f'store-after-crash-fails/{type(ex).__name__}' +
                        ('/shares-dataset-with-interrupted-store' if shares else ''),
                        f'{where}: storing {e["name"]} (not in flight at the crash) raises {ex!r}')
@@ -601,11 +639,11 @@ def check_state(root, ref, inflight, V, where, wl_models, do_progress=True):
                 V.count('r4.progress_ok')
 
 
-def check_log(ctx, ref, inflight, V, where):
+def check_log(ctx, ref, infl, V, where, ordered=True):
     try:
         df = ctx.retrieve_log()
     except Exception as ex:
-        if inflight is not None and inflight['kind'] == 'log':
+        if infl.logs:
             # A torn append of a long message leaves an unterminated quoted field and
             # pandas refuses the whole file.  The statement promises crash safety for
             # interrupted *stores*, not for interrupted log writes: observed, not flagged.
@@ -614,18 +652,70 @@ def check_log(ctx, ref, inflight, V, where):
             V.viol(f'log-unreadable/{type(ex).__name__}', f'{where}: retrieve_log raises {ex!r}')
         return
     rows = list(zip(df['severity'].tolist(), df['path'].tolist(), df['message'].tolist()))
-    n = len(ref.log)
-    extra_ok = 1 if (inflight is not None and inflight['kind'] == 'log') else 0
-    if len(rows) < n or len(rows) > n + extra_ok:
-        V.viol('log-row-count', f'{where}: {len(rows)} rows, {n} acknowledged messages')
+    want = [tuple(x) for x in ref.log]
+    if ref.log_times and all(t is not None for t in ref.log_times):
+        # concurrent history: exactly once, verbatim, consistent with real-time order
+        pos = {}
+        for w in want:
+            idxs = [i for i, r in enumerate(rows) if r == w]
+            if len(idxs) != 1 and infl.logs:
+                # an interrupted/failed append left a partial line that swallows the next
+                # one: outside the statement (see the torn-append note above), observed only
+                V.count('observed.log_damaged_after_interrupted_log_append')
+                return
+            if len(idxs) != 1:
+                V.viol('log-message-not-verbatim' if not idxs else 'log-message-duplicated',
+                       f'{where}: acknowledged message {w!r} occurs {len(idxs)} times')
+                return
+            pos[w] = idxs[0]
+        for a, ta in zip(want, ref.log_times):
+            for b, tb in zip(want, ref.log_times):
+                if ta[1] < tb[0] and pos[a] > pos[b]:
+                    V.viol('log-order', f'{where}: {a[2][:40]!r} returned before {b[2][:40]!r} was '
+                                        f'logged but comes after it in the log')
+                    return
+        extra = [r for i, r in enumerate(rows) if i not in set(pos.values())]
+        for r in extra:
+            if r not in infl.logs:
+                V.viol('log-row-count', f'{where}: row {r!r} was never logged')
+                return
+        V.count('r3.log_ok')
         return
-    for i, (want, got) in enumerate(zip(ref.log, rows)):
-        if tuple(want) != tuple(got):
-            sev, path, msg = got
+    if ordered and not infl.logs:
+        if rows != want:
+            n = min(len(rows), len(want))
+            i = next((j for j in range(n) if rows[j] != want[j]), n)
+            got = rows[i] if i < len(rows) else None
+            exp = want[i] if i < len(want) else None
             cls = 'log-message-not-verbatim'
-            if want[0] == sev and want[1] == path and isinstance(msg, float):
+            if got is not None and exp is not None and got[:2] == exp[:2] and isinstance(got[2], float):
                 cls = 'log-message-not-verbatim/NaN'
-            V.viol(cls, f'{where}: row {i}: logged {want!r}, retrieved {got!r}')
+            elif len(rows) != len(want) and rows[:n] == want[:n]:
+                cls = 'log-row-count'
+            V.viol(cls, f'{where}: row {i}: logged {exp!r}, retrieved {got!r} '
+                        f'({len(rows)} rows, {len(want)} acknowledged)')
+            return
+    else:
+        # acknowledged messages form a subsequence; the rest are interrupted ones
+        it = iter(rows)
+        pos = 0
+        for w in want:
+            for r in it:
+                pos += 1
+                if r == w:
+                    break
+            else:
+                if infl.logs:
+                    V.count('observed.log_damaged_after_interrupted_log_append')
+                    return
+                cls = 'log-message-not-verbatim'
+                V.viol(cls, f'{where}: acknowledged message {w!r} not found in order '
+                            f'(retrieved {len(rows)} rows)')
+                return
+        extra = len(rows) - len(want)
+        if extra > len(infl.logs):
+            V.viol('log-row-count', f'{where}: {len(rows)} rows, {len(want)} acknowledged, '
+                                    f'{len(infl.logs)} interrupted')
             return
     V.count('r3.log_ok')
 
@@ -764,15 +854,12 @@ def run_journal(cfg, tape, want_trace=False):
         where = f'crash before fs-op {k}' + (f' (write torn at {torn} bytes)' if torn else '') + \
             (f' inside {fmt_op(inflight)}' if inflight else ' between operations') + \
             f' [{journal[k][0]} {journal[k][1]}]'
-        before = len(V.violations)
         try:
             check_state(root, ref_k, inflight, V, where, wl['models'])
         except Exception as ex:    # the oracle itself must not crash
             import traceback
             harness = f'oracle error at {where}: {traceback.format_exc()[-1200:]}'
             del ex
-            break
-        if len(V.violations) > before and cfg.get('crashpoints') != 'all':
             break
     h.update(repr(sorted(states)).encode())
     h.update(repr([v['signature'] for v in V.violations]).encode())
@@ -794,12 +881,18 @@ def run_journal(cfg, tape, want_trace=False):
 
 def decode(cfg, tape_values):
     r = run_one(cfg, Tape(recorded=tape_values), want_trace=True)
+    if cfg.get('mode') == 'insitu':
+        return {'phases': r.get('phases'), 'violations': r['violations']}
     return {'workload': r.get('workload'), 'journal': r.get('journal'),
             'crash_points': r.get('crash_points'), 'violations': r['violations']}
 
 
 def sample_of(cfg, r):
     rr = run_one(cfg, Tape(recorded=r['tape']), want_trace=True)
+    if cfg.get('mode') == 'insitu':
+        ph = (rr.get('phases') or [{}])[0]
+        return {'config': cfg, 'program': ph.get('program'), 'history': ph.get('history'),
+                'fs_ops_head': (ph.get('fs_ops') or [])[:60]}
     return {'config': cfg, 'workload': rr.get('workload'), 'journal_head': (rr.get('journal') or [])[:45],
             'crash_points': rr.get('crash_points')}
 
